@@ -24,7 +24,22 @@
 (*    concatenates the per-rank lists in rank order; Reorder(r) restores   *)
 (*    sample order, either as built ("byweight": sort both by weight,      *)
 (*    argsort free among ties) or repaired ("bylayout": invert the known   *)
-(*    round-robin layout).                                                 *)
+(*    round-robin layout), and computes the rank's weighted-mean summary   *)
+(*    from the gathered, re-ordered arrays (SummarySource = "gathered") or *)
+(*    -- expected counterexample -- from the lists the rank filled itself  *)
+(*    ("local": another number on every rank, and an error on a rank that  *)
+(*    holds no sample / no weight, which leaves the other ranks waiting in *)
+(*    the next collective).                                                *)
+(* Unit of the weights.  What the ranks are handed are the weights of smp  *)
+(*    multiplied by WScale > 0 (weights that were never normalised, or are *)
+(*    tiny / huge as a whole, as the leading dead points of a nested       *)
+(*    sampling run).  The accumulators scale (wcount, M2) or do not (mean);*)
+(*    every result -- mean, variance, derived summaries -- is compared     *)
+(*    with the statistics of the UNSCALED samples: the outcome must not    *)
+(*    depend on the unit of the weights (WeightScaleLemma).  ZeroGuard =   *)
+(*    "tolerant" (an absolute threshold in the "nothing weighed yet" test  *)
+(*    of the update) is the expected counterexample: it passes at WScale = *)
+(*    1 and is refuted at WScale = 1/1024.                                 *)
 (***************************************************************************)
 EXTENDS ParallelStatsOps
 CONSTANTS NRs,          \* set of rank counts explored
@@ -36,7 +51,9 @@ CONSTANTS NRs,          \* set of rank counts explored
           NaNTest,      \* "identity" (as built) | "value" (repaired)
           StrideOff,    \* 0; 1 models the slicing error rank::size-1 (non-vacuity of EachSampleOnce)
           ReorderMode,  \* "byweight" (as built) | "bylayout" (repaired)
-          ZeroGuard,    \* "guarded" | "unguarded": the 0/0 of OnlineVariance.update (zero weight, nothing weighed yet)
+          ZeroGuard,    \* "guarded" | "unguarded" | "tolerant": the 0/0 of OnlineVariance.update (zero weight, nothing weighed yet)
+          WScale,       \* rational > 0: common factor of the weights the ranks are handed (unit of the weights)
+          SummarySource,\* "gathered" | "local": what the weighted-mean summary of a derived parameter is computed from
           Ordered       \* TRUE: ranks take their Gather/Combine/Derive/Reorder steps in rank order (exports and
                         \* the combine-step-alone configs, where interleavings add nothing); FALSE: free
 VARIABLES nr, smp, mine, pc, acc, sent, res, dpc, cat, out
@@ -53,13 +70,14 @@ Assignments(k, n) == IF Assign = "roundrobin" THEN {RoundRobin(k, n)}
 InTurn(done, r) == Ordered => \A q \in 1..(r - 1) : done[q] # <<>>
 Prefix(r) == SubSamples(smp, SubSeq(mine[r], 1, pc[r]))
 Mine(r)   == SubSamples(smp, mine[r])
+SSmp      == ScaleW(smp, WScale)          \* what the ranks are handed
 
 Init == /\ nr \in NRs
         /\ smp \in SampleSpace
         /\ mine \in Assignments(nr, Len(smp))
         /\ IF Part = "var" /\ Jump
            THEN /\ pc  = [r \in 1..nr |-> Len(mine[r])]
-                /\ acc = [r \in 1..nr |-> FoldAccG(ZeroGuard, Acc0, SubSamples(smp, mine[r]), 1)]
+                /\ acc = [r \in 1..nr |-> FoldAccG(ZeroGuard, Acc0, SubSamples(SSmp, mine[r]), 1)]
            ELSE /\ pc  = [r \in 1..nr |-> 0]
                 /\ acc = [r \in 1..nr |-> Acc0]
         /\ sent = [r \in 1..nr |-> <<>>]
@@ -72,7 +90,7 @@ Init == /\ nr \in NRs
 Update(r) == /\ Part = "var"
              /\ sent[r] = <<>>
              /\ pc[r] < Len(mine[r])
-             /\ LET s == smp[mine[r][pc[r] + 1]]
+             /\ LET s == SSmp[mine[r][pc[r] + 1]]
                 IN  acc' = [acc EXCEPT ![r] = UpdAccG(ZeroGuard, acc[r], s.v, s.w)]
              /\ pc' = [pc EXCEPT ![r] = pc[r] + 1]
              /\ UNCHANGED <<nr, smp, mine, sent, res, dpc, cat, out>>
@@ -104,9 +122,16 @@ AllReduceConcat ==
              /\ \A r \in Ranks : dpc[r] = Len(mine[r])
              /\ LET idx == ConcatUpTo(mine, nr)            \* rank order; Ser is the identity on numbers
                 IN  cat' = <<[idx |-> idx,
-                              tr  |-> [k \in 1..Len(idx) |-> smp[idx[k]].v],
-                              wt  |-> [k \in 1..Len(idx) |-> smp[idx[k]].w]]>>
+                              tr  |-> [k \in 1..Len(idx) |-> SSmp[idx[k]].v],
+                              wt  |-> [k \in 1..Len(idx) |-> SSmp[idx[k]].w]]>>
              /\ UNCHANGED <<nr, smp, mine, pc, acc, sent, res, dpc, out>>
+\* np.average(trace, weights=w): ZeroDivisionError when the weights sum to zero (or there is none)
+AvgOf(tr, wt) == IF RSumSeq(wt) = RZero THEN ErrV ELSE Num(WMeanSeq(tr, wt))
+SummaryOf(r, tr, wt) == IF SummarySource = "local"
+                        THEN LET p == SubSamples(SSmp, mine[r])
+                             IN  AvgOf([k \in 1..Len(p) |-> p[k].v], [k \in 1..Len(p) |-> p[k].w])
+                        ELSE AvgOf(tr, wt)
+WithSummary(r, tr, wt) == [tr |-> tr, wt |-> wt, mean |-> SummaryOf(r, tr, wt)]
 Reorder(r) == /\ Part = "trace"
               /\ cat # <<>>
               /\ out[r] = <<>>
@@ -115,12 +140,12 @@ Reorder(r) == /\ Part = "trace"
                  IF ReorderMode = "byweight"
                  THEN \* `sorted_weights = weights.argsort()` against `all_weight.argsort()`
                       /\ Len(c.idx) = N        \* otherwise the fancy assignment raises
-                      /\ \E p \in ArgSorts([i \in 1..N |-> smp[i].w]), q \in ArgSorts(c.wt) :
-                            out' = [out EXCEPT ![r] = <<[tr |-> PlaceBy(p, q, c.tr), wt |-> PlaceBy(p, q, c.wt)]>>]
+                      /\ \E p \in ArgSorts([i \in 1..N |-> SSmp[i].w]), q \in ArgSorts(c.wt) :
+                            out' = [out EXCEPT ![r] = <<WithSummary(r, PlaceBy(p, q, c.tr), PlaceBy(p, q, c.wt))>>]
                  ELSE /\ Len(c.idx) = N
                       /\ \A i \in 1..N : \E k \in 1..N : c.idx[k] = i
-                      /\ out' = [out EXCEPT ![r] = <<[tr |-> PlaceByLayout(ConcatUpTo(RoundRobin(nr, N), nr), c.tr),
-                                                      wt |-> PlaceByLayout(ConcatUpTo(RoundRobin(nr, N), nr), c.wt)]>>]
+                      /\ out' = [out EXCEPT ![r] = <<WithSummary(r, PlaceByLayout(ConcatUpTo(RoundRobin(nr, N), nr), c.tr),
+                                                                 PlaceByLayout(ConcatUpTo(RoundRobin(nr, N), nr), c.wt))>>]
               /\ UNCHANGED <<nr, smp, mine, pc, acc, sent, res, dpc, cat>>
 
 UpdateStep  == \E r \in Ranks : Update(r)
@@ -148,10 +173,10 @@ AccIsTwoPass ==
     Part = "var" => \A r \in Ranks : sent[r] = <<>> =>
         LET p == Prefix(r) IN
         /\ acc[r].count = pc[r]
-        /\ acc[r].wcount = SumW(p)
-        /\ pc[r] = 0 => acc[r].mean = NoneV
+        /\ acc[r].wcount = RMul(WScale, SumW(p))           \* p: the UNSCALED samples; the weight sum and M2
+        /\ pc[r] = 0 => acc[r].mean = NoneV                \* carry the unit of the weights, the mean does not
         /\ (pc[r] > 0 /\ Defined(p)) => /\ acc[r].mean = WMean(p)
-                                        /\ acc[r].M2 = TwoPassM2(p)
+                                        /\ acc[r].M2 = RMul(WScale, TwoPassM2(p))
         \* only zero weights so far: counted, and no other mark (the mean is a placeholder nobody reads)
         /\ (pc[r] > 0 /\ ~Defined(p)) => /\ acc[r].mean = RZero
                                          /\ acc[r].M2 = RZero
@@ -173,21 +198,35 @@ VarianceIsTwoPass ==
 ZeroWeightLemma ==
     (Part = "var" /\ Defined(smp)) => /\ WMean(smp) = WMean(PosSamples(smp))
                                       /\ TwoPassVar(smp) = TwoPassVar(PosSamples(smp))
+\* lemma: the two-pass statistics do not depend on the unit of the weights (what MeanIsWeightedMean /
+\* VarianceIsTwoPass / AccIsTwoPass, which compare with the UNSCALED samples, rely on)
+WeightScaleLemma ==
+    Defined(smp) => /\ WMean(SSmp) = WMean(smp)
+                    /\ TwoPassVar(SSmp) = TwoPassVar(smp)
+                    /\ TwoPassM2(SSmp) = RMul(WScale, TwoPassM2(smp))
+                    /\ SumW(SSmp) = RMul(WScale, SumW(smp))
 \* whatever the number of ranks, the partition and the interleaving: the single-process result
 ScheduleIndependent ==
     (Part = "var" /\ AnyFinished) =>
-        LET one == SerialResG(ZeroGuard, smp) IN
+        LET one == SerialResG(ZeroGuard, SSmp) IN
         \A r \in Ranks : Finished(r) => SameX(res[r][1].var, one.var) /\ SameX(res[r][1].mean, one.mean)
 
 TraceInSampleOrder ==
     Part = "trace" => \A r \in Ranks : out[r] # <<>> =>
         /\ out[r][1].tr = [i \in 1..N |-> smp[i].v]
-        /\ out[r][1].wt = [i \in 1..N |-> smp[i].w]
+        /\ out[r][1].wt = [i \in 1..N |-> SSmp[i].w]
 \* summaries are functions of the multiset of (value, weight) pairs (quantiles) and the weighted mean
 SummariesEqualSerial ==
     Part = "trace" => \A r \in Ranks : out[r] # <<>> =>
-        /\ PairBagEq(out[r][1].tr, out[r][1].wt, [i \in 1..N |-> smp[i].v], [i \in 1..N |-> smp[i].w])
+        /\ PairBagEq(out[r][1].tr, out[r][1].wt, [i \in 1..N |-> smp[i].v], [i \in 1..N |-> SSmp[i].w])
         /\ SumW(smp) # RZero => WMeanSeq(out[r][1].tr, out[r][1].wt) = WMean(smp)
+\* the weighted-mean summary every rank reports is the weighted mean of ALL samples (in whatever unit the
+\* weights are given), on every rank -- also on a rank that processed no sample itself
+SummaryMeanIsGlobal ==
+    (Part = "trace" /\ Defined(smp)) => \A r \in Ranks : out[r] # <<>> => out[r][1].mean = Num(WMean(smp))
+\* no rank fails while the others go on to the next collective (they would wait for ever)
+NoRankFails ==
+    (Part = "trace" /\ Defined(smp)) => \A r \in Ranks : out[r] # <<>> => out[r][1].mean # ErrV
 \* lemma used by Trace_ParallelStats: the moment form of the two-pass variance
 DirectVarLemma == (Part = "var" /\ N >= 1 /\ Defined(smp)) => DirectVar(smp) = TwoPassVar(smp)
 \* every rank that reaches the end produces an output (no rank is stuck on an exception)
